@@ -67,11 +67,10 @@ def binaryCliqueCore (G : SimpleG) (k : Nat) (symbreak : Bool) : Formula :=
     cons := binComplete 1 bits k N ++ binInjective 1 bits k N ++
       (if symbreak then binNondecreasing 1 bits k N else []) ++ binCliqueEdgeCons G k symbreak }
 
-/-- `BinaryCliqueFormula(G, k, symbreak)`: ValueError for `k < 0` (`non_negative_int`) and for
-`k = 0` or an empty graph (`BinaryMappingVariables.__init__` wants both sizes positive) -/
+/-- `BinaryCliqueFormula(G, k, symbreak)`: ValueError only for `k < 0` (`non_negative_int`); `k = 0` and the
+null graph are accepted since the fix of D42 (`BinaryMappingVariables` with an empty domain or range) -/
 def binaryCliqueFormula (G : SimpleG) (k : Int) (symbreak : Bool) : Except Err Formula :=
   if k < 0 then .error .valueError
-  else if G.n < 1 ∨ k < 1 then .error .valueError
   else .ok (binaryCliqueCore G k.toNat symbreak)
 
 /-- the "local consistency" loop of `RamseyWitnessFormula`; the literal `c` is `C` on an edge, `¬C` on a non-edge -/
